@@ -126,6 +126,8 @@ func handshakeCases(o *drv.Out) {
 		emit(fmt.Sprintf("honest-%d-%d-%d-%d", c[0], c[1], c[2], c[3]), fmt.Sprintf("hs honest %d %d %d %d", c[0], c[1], c[2], c[3]), res)
 	}
 
+	warmVerifierCases(o, emit, begin, nm)
+
 	for r := 0; r < rep; r++ {
 		// 2. transparent relay: every byte forwarded unchanged — both ends authenticate each other
 		{
